@@ -844,3 +844,29 @@ def stream_nick_spelled_like_table(rng):
     return {"version": rng.choice([2, 3]), "options": [], "stmts": stmts,
             "raw": [rng.randint(0, 10 ** 6) for _ in range(60)], "bias": rng.choice(["lo", "hi", "mix", "hi"])}, \
         ["random_reference", "nick", "nick_spelled_like_table"]
+
+
+def stream_stale_slot(rng):
+    """a forward-reference slot that outlives its iteration without having been used there - held by a
+    hidden field of a just_once row, or by a top-level variable that reads its own previous value - and
+    is first used (.id / written as a reference) by a template that is idle in the first iteration.
+    Before /repo fix d3f3d81 the id drawn through the stale slot was never taken by a row (gap in the
+    table's ids, dangling reference); now the iteration fails with Snowfakery's error."""
+    a = ["attr", ["var", "A"], "id"]
+    idle_then_busy = _F(["e", ["sub", a, ["int", 1]]])                       # 0,1,2,..
+    keeper = rng.choice(["once_hidden", "self_var"])
+    use = rng.choice(["id", "ref"])
+    stmts = []
+    if keeper == "once_hidden":
+        stmts.append(["obj", _T("D", "jj", True, [("__r", _F(["e", ["var", "B"]])), ("f0", ["int", 3])])])
+        held = ["attr", ["var", "jj"], "__r"]
+    else:
+        nm = "B" if rng.random() < 0.5 else "bb"
+        stmts.append(["var", nm, _F(["e", ["var", nm]])])            # ${{B}}: the slot object itself (dialect 3)
+        held = ["var", stmts[-1][1]]
+    stmts.append(["obj", _T("A", None, False, [("f0", ["int", 1])])])
+    fld = ("x", _F(["e", ["attr", held, "id"]])) if use == "id" else ("x", _F(["e", held]))
+    stmts.append(["obj", _T("C", None, False, [fld], count=idle_then_busy)])
+    stmts.append(["obj", _T("B", "bb", False, [("f1", ["int", 2])], count=rng.choice([None, ["int", 2]]))])
+    return {"version": 3, "options": [], "stmts": stmts}, \
+        ["stale_slot", "count_formula", "forward_ref", "nick"] + (["just_once", "hidden_field"] if keeper == "once_hidden" else ["var_top"])
